@@ -333,8 +333,21 @@ def _blocks(e):
 class _NameParts(ast.NodeTransformer):
     """tr2rt(T)[0] / t2r(T) / T[:3, :3] -> R ;  tr2rt(T)[1] / transl(T) / T[:3, 3] -> t ;  zeros((3, 3)) -> Z"""
 
+    whole_is_R = False
+
     def __init__(self, T):
         self.T = T
+
+    def visit_Name(self, n):
+        # under the 3x3 shape test the argument itself is the rotation
+        if self.whole_is_R and n.id == self.T and isinstance(n.ctx, ast.Load):
+            return ast.Name(id='R', ctx=ast.Load())
+        return n
+
+    def visit_Attribute(self, n):
+        if isinstance(n.value, ast.Name) and n.value.id == self.T and n.attr in ('dtype', 'shape'):
+            return n
+        return self.generic_visit(n)
 
     def visit_Subscript(self, n):
         self.generic_visit(n)
@@ -360,15 +373,22 @@ def _adjoint(run):
         if len(rets) != 1:
             run.error('R16: adjoint: branch %s not found' % shape)
             continue
-        # do not inline locals here: blocks are compared by role (R, t from tr2rt / T itself; Z zeros)
+        # blocks are compared by role (R, t from tr2rt / T itself; Z zeros): first by the names of the locals ...
         b = _blocks(canon(cx.fi, rets[0].value, inline=False))
-        if b is None:
-            run.error('R16: adjoint %s is not an np.block literal' % shape)
-            continue
-        roles = _roles(cx, rets[0], shape)
-        if roles is None:
-            run.error('R16: adjoint %s: cannot identify R/t/Z' % shape)
-            continue
+        roles = _roles(cx, rets[0], shape) if b is not None else None
+        if roles is not None and shape == '(3, 3)':
+            roles = dict(roles)
+            roles.setdefault(cx.pname(0), 'R')       # under the 3x3 shape test the argument itself is the rotation
+        if b is None or roles is None:
+            # ... otherwise by evaluating the path and naming the parts of the argument (whatever the temporaries are called)
+            ev = [e for (r_, e) in sl_eval(cx) if r_ is rets[0]]
+            np_ = _NameParts(cx.pname(0))
+            np_.whole_is_R = (shape == '(3, 3)')
+            b = _blocks(np_.visit(_copy.deepcopy(ev[0]))) if len(ev) == 1 else None
+            roles = {}
+            if b is None:
+                run.error('R16: adjoint %s: not an np.block literal over R, t and zeros' % shape)
+                continue
         nm = Normaliser(rename=roles)
         got = [[nm.poly(x) for x in r] for r in b]
         wantp = [[Normaliser().poly(parse_expr(x)) for x in r] for r in want]
@@ -1630,9 +1650,9 @@ ROUTES_C02 = [
     ('super_pose:SMPose.__mul__', 'composition multiplies left then right', ['left.__class__(left._op2(right, lambda x, y: x @ y), check=False)'], 'any'),
     ('super_pose:SMPose.__truediv__', 'division composes with the inverse of the right operand', ['left.__class__(left._op2(right.inv(), lambda x, y: x @ y), check=False)'], 'any'),
     ('super_pose:SMPose.__pow__', 'integer power by matrix_power on every element', ['self.__class__([matrix_power(x, n) for x in self.data], check=False)'], 'return'),
-    ('pose3d:SO3.inv', 'inverse of a rotation is its transpose', ['SO3(self.A.T, check=False)', 'SO3([x.T for x in self.A], check=False)'], 'return'),
+    ('pose3d:SO3.inv', 'inverse of a rotation is its transpose', ['SO3(self.A.T, check=False)', 'SO3([x.T for x in self.A], check=False)', 'SO3([x.T for x in self.data], check=False)', 'SO3([x.A.T for x in self], check=False)'], 'return'),
     ('pose3d:SE3.inv', 'SE3 inverse through trinv', ['SE3(trinv(self.A), check=False)', 'SE3([trinv(x) for x in self.A], check=False)'], 'return'),
-    ('pose2d:SO2.inv', 'inverse of a rotation is its transpose', ['SO2(self.A.T)', 'SO2([x.T for x in self.A])', 'SO2(self.A.T, check=False)', 'SO2([x.T for x in self.A], check=False)'], 'return'),
+    ('pose2d:SO2.inv', 'inverse of a rotation is its transpose', ['SO2(self.A.T)', 'SO2([x.T for x in self.A])', 'SO2(self.A.T, check=False)', 'SO2([x.T for x in self.A], check=False)', 'SO2([x.T for x in self.data])', 'SO2([x.T for x in self.data], check=False)', 'SO2([x.A.T for x in self])'], 'return'),
     ('pose2d:SE2.inv', 'SE2 inverse [[R^T, -R^T t],[0,1]]', ['SE2(rt2tr(self.R.T, -self.R.T @ self.t))', 'SE2([rt2tr(x.R.T, -x.R.T @ x.t) for x in self])',
                                                              'SE2(trinv2(self.A))', 'SE2([trinv2(x) for x in self.A])',
                                                              'SE2(rt2tr(self.R.T, -self.R.T @ self.t), check=False)', 'SE2([rt2tr(x.R.T, -x.R.T @ x.t) for x in self], check=False)'], 'return'),
@@ -3159,20 +3179,52 @@ class _Unbatch(ast.NodeTransformer):
     def __init__(self, names):
         self.names = names
 
+    @staticmethod
+    def _full(x):
+        return isinstance(x, ast.Slice) and x.lower is None and x.upper is None and x.step is None
+
+    @staticmethod
+    def _newaxis(x):
+        return (isinstance(x, ast.Constant) and x.value is None) or (isinstance(x, ast.Name) and x.id == 'newaxis') or \
+            (isinstance(x, ast.Attribute) and x.attr == 'newaxis')
+
     def visit_Subscript(self, n):
         self.generic_visit(n)
         if isinstance(n.value, ast.Name) and n.value.id in self.names and isinstance(n.slice, ast.Tuple) and len(n.slice.elts) == 3:
             first = n.slice.elts[0]
-            if isinstance(first, ast.Slice) and first.lower is None and first.upper is None and first.step is None:
+            if self._full(first):
                 return ast.Subscript(value=n.value, slice=ast.Tuple(elts=n.slice.elts[1:], ctx=ast.Load()), ctx=n.ctx)
+        # the stacked column-vector idiom  (A @ b[:, :, newaxis])[:, :, 0]  is the per-element product A @ b
+        if isinstance(n.slice, ast.Tuple) and len(n.slice.elts) == 3 and self._full(n.slice.elts[0]) and self._full(n.slice.elts[1]) and \
+                isinstance(n.slice.elts[2], ast.Constant) and n.slice.elts[2].value == 0 and isinstance(n.value, ast.BinOp) and isinstance(n.value.op, ast.MatMult):
+            r = n.value.right
+            if isinstance(r, ast.Subscript) and isinstance(r.slice, ast.Tuple) and len(r.slice.elts) == 3 and self._full(r.slice.elts[0]) and \
+                    self._full(r.slice.elts[1]) and self._newaxis(r.slice.elts[2]):
+                return ast.BinOp(left=n.value.left, op=ast.MatMult(), right=r.value)
         return n
+
+    @staticmethod
+    def _axes(a):
+        if isinstance(a, (ast.Tuple, ast.List)):
+            return [getattr(x, 'value', None) for x in a.elts]
+        return None
 
     def visit_Call(self, n):
         self.generic_visit(n)
-        if isinstance(n.func, ast.Attribute) and n.func.attr == 'transpose' and [getattr(a, 'value', None) for a in n.args] == [0, 2, 1]:
+        if isinstance(n.func, ast.Attribute) and n.func.attr == 'transpose' and ([getattr(a, 'value', None) for a in n.args] == [0, 2, 1] or
+                                                                                 (len(n.args) == 1 and self._axes(n.args[0]) == [0, 2, 1])):
             return ast.Attribute(value=n.func.value, attr='T', ctx=ast.Load())
         if isinstance(n.func, ast.Attribute) and n.func.attr == 'swapaxes' and sorted(getattr(a, 'value', None) for a in n.args) == [1, 2]:
             return ast.Attribute(value=n.func.value, attr='T', ctx=ast.Load())
+        # function spellings: transpose(X, (0, 2, 1)), swapaxes(X, 1, 2), matmul(A, B)
+        if isinstance(n.func, ast.Name) and n.func.id == 'transpose' and len(n.args) == 2 and self._axes(n.args[1]) == [0, 2, 1]:
+            return ast.Attribute(value=n.args[0], attr='T', ctx=ast.Load())
+        if isinstance(n.func, ast.Name) and n.func.id == 'transpose' and len(n.args) == 1 and any(k.arg == 'axes' and self._axes(k.value) == [0, 2, 1] for k in n.keywords):
+            return ast.Attribute(value=n.args[0], attr='T', ctx=ast.Load())
+        if isinstance(n.func, ast.Name) and n.func.id == 'swapaxes' and len(n.args) == 3 and sorted(getattr(a, 'value', None) for a in n.args[1:]) == [1, 2]:
+            return ast.Attribute(value=n.args[0], attr='T', ctx=ast.Load())
+        if isinstance(n.func, ast.Name) and n.func.id == 'matmul' and len(n.args) == 2 and not n.keywords:
+            return ast.BinOp(left=n.args[0], op=ast.MatMult(), right=n.args[1])
         if isinstance(n.func, ast.Name) and n.func.id == 'einsum' and len(n.args) == 3 and isinstance(n.args[0], ast.Constant):
             spec = n.args[0].value.replace(' ', '')
             try:
@@ -3228,7 +3280,13 @@ def check_batched_inverse(run, key, n, rule='R15'):
                 env[st.targets[0].id] = _Subst(env).visit(v)
             if isinstance(st, ast.Assign) and isinstance(st.targets[0], ast.Subscript) and isinstance(st.targets[0].value, ast.Name) and st.targets[0].value.id == out:
                 tgt = _Unbatch({out, srcname}).visit(_copy.deepcopy(st.targets[0]))
-                val = _Subst(env).visit(_Unbatch({out, srcname}).visit(_copy.deepcopy(canon(fi, st.value, inline=False))))
+                val = _Unbatch({out, srcname}).visit(_Subst(env).visit(_Unbatch({out, srcname}).visit(_copy.deepcopy(canon(fi, st.value, inline=False)))))
+                for y in ast.walk(val):
+                    if isinstance(y, ast.Call) and isinstance(y.func, (ast.Name, ast.Attribute)) and \
+                            (y.func.id if isinstance(y.func, ast.Name) else y.func.attr) in ('transpose', 'swapaxes', 'moveaxis', 'einsum', 'matmul', 'tensordot', 'squeeze', 'reshape'):
+                        raise Unrecognised('batched idiom ' + src(y, 40))
+                    if isinstance(y, ast.Subscript) and isinstance(y.slice, ast.Tuple) and any(_Unbatch._newaxis(z) or (isinstance(z, ast.Constant) and z.value is Ellipsis) for z in y.slice.elts):
+                        raise Unrecognised('batched idiom ' + src(y, 40))
                 tbl[nm.slice_str(tgt.slice)] = nm.poly(val)
     except Unrecognised as ex:
         run.error('%s: %s: stacked-array inverse unrecognised: %s' % (rule, key, ex))
@@ -3322,7 +3380,29 @@ def tables_plumbing(run, rule=RULE):
             else:
                 run.holds(rule, key, construct, '%s(%d) with the matrix in [:%d, :%d] and the vector in [:%d, %d]' % (allocname, k + 1, k, k, k, k), f=f, node=body[0])
         if n_arm < 2:
-            run.error('R16: %s: fewer than 2 shape arms found' % key)
+            # one parametric arm: n = A.shape[0]; T = eye(n + 1); T[:n, :n] = A; T[:n, n] = b
+            from ..cfg import pure_locals
+            pl = {k_: ast.unparse(canon(fi, v_, inline=False)) for k_, v_ in pure_locals(f.node, keep=()).items()}
+            alloc, tbl = stores(body_nodoc(f.node), fi)
+            sized = [k_ for k_, v_ in pl.items() if v_ in ('%s.shape[0]' % A, 'len(%s)' % b, '%s.shape[1]' % A)]
+            done = False
+            for nn in sized:
+                want = {':%s, :%s' % (nn, nn): A, ':%s, %s' % (nn, nn): b}
+                okalloc = alloc is not None and any(matches(p_ % {'a': allocname, 'n': nn}, alloc) is not None for p_ in
+                                                    ('%(a)s(%(n)s + 1)', '%(a)s((%(n)s + 1, %(n)s + 1), *_R)', '%(a)s(%(n)s + 1, %(n)s + 1)'))
+                construct = '%s block table (n x n)' % f.name
+                if alloc is None or not tbl:
+                    break
+                done = True
+                if not okalloc:
+                    run.violation(rule, key, construct, 'the result is allocated as %s; it needs %s(%s + 1)' % (ast.unparse(alloc), allocname, nn), f=f)
+                elif tbl != want:
+                    run.violation(rule, key, construct, 'the blocks are written as %s; the definition is %s' % (tbl, want), f=f)
+                else:
+                    run.holds(rule, key, construct, '%s(n + 1) with the matrix in [:n, :n] and the vector in [:n, n], n the size of the matrix' % allocname, f=f)
+                break
+            if not done:
+                run.error('R16: %s: fewer than 2 shape arms found' % key)
     # readers: t2r, tr2rt
     for key, slotfmt, what in (('base/transformsNd:t2r', ':%d, :%d', 'rotation block'), ('base/transformsNd:tr2rt', ':%d, %d', 'translation column')):
         f = run.prog.func(key)
